@@ -1,3 +1,4 @@
+import Nstd.Generated.StrTables
 /-
   Executable model of `String` (include/nstd/String.hpp, src/String.cpp, with the repairs of
   fixes/str/ applied), method by method, over *checked* memory.  Core Lean only.
@@ -119,7 +120,7 @@ def cstrAt (s : St) (p : Base) (off : Nat) : Option (List Nat) := do
 def fresh (n : Nat) : List Byte := List.replicate n none
 
 /-- `capacity | 0x3` -/
-def capRule (n : Nat) : Nat := n ||| 3
+def capRule (n : Nat) : Nat := n ||| Generated.capMask
 
 /-! ### the heap primitives -/
 
@@ -342,8 +343,9 @@ def mapChars (s : St) (v : Nat) (f : Nat → Nat) : Option St := do
   let m ← mapUntilNul f m
   writeOwn s v m d.len
 
-def toLower (c : Nat) : Nat := if 65 ≤ c ∧ c ≤ 90 then c + 32 else c
-def toUpper (c : Nat) : Nat := if 97 ≤ c ∧ c ≤ 122 then c - 32 else c
+/-- `lowerCaseMap[(uchar)c]` / `upperCaseMap[(uchar)c]`: the tables are regenerated from String.cpp -/
+def toLower (c : Nat) : Nat := Generated.lowerCaseMap.getD c c
+def toUpper (c : Nat) : Nat := Generated.upperCaseMap.getD c c
 
 def replaceC (s : St) (v : Nat) (a b : Nat) : Option St := mapChars s v (fun c => if c = a then b else c)
 def lowerCase (s : St) (v : Nat) : Option St := mapChars s v toLower
@@ -709,7 +711,7 @@ def replaceS (s : St) (v wn wr_ tmp : Nat) : Option St := do
       let dv ← desc s v
       let dr ← desc s wr_
       let c ← content s v
-      let s ← ctorCap s tmp (dv.len + dr.len * 10)
+      let s ← ctorCap s tmp (dv.len + dr.len * Generated.replaceSlack)
       let s ← replaceLoop h n c wr_ tmp (h.length + 1) s 0 m
       let s ← assign s v tmp
       pure (setEmpty s tmp)
@@ -738,7 +740,7 @@ def render : List Fmt → List Nat
 /-- `printf(format, …)`: `detach(0, 200)`, `vsnprintf` into the capacity, second attempt when it did not fit -/
 def printf (s : St) (v : Nat) (f : List Fmt) : Option (St × Nat) := do
   let out := render f
-  let s ← detach s v 0 200
+  let s ← detach s v 0 Generated.printfBuf
   let d ← desc s v
   let m ← memOf s d.base
   if out.length < d.cap then do
